@@ -405,3 +405,13 @@ PROPS["C16"]["explanation"] += (" Losslessness (DM/Props/C16.lean): macro05_loss
 PROPS["C16"]["level_text"] = ("Partial proof: decision logic of macro compaction / FNC1 start and losslessness for all bodies and all plans covered by the round-trip theorem are theorems about the models"
     " (tied by correspondence); the remaining plan shapes (EDIFACT mixed with other modes, late latches) are exploration with a specification oracle.")
 PROPS["C01"]["explanation"] += " The same holds behind an FNC1 or Macro 05/06 prefix codeword (MainRT.fnc1_roundtrip, macro_roundtrip; stated as losslessness in DM/Props/C16.lean)."
+
+# ---- Reed-Solomon distance theorems (Lemmas/RSDist.lean, Props/C09.lean, Props/C03.lean) ----
+PROPS["C09"]["lean"] = ["DM.Props.C09"]
+PROPS["C09"]["explanation"] += " Theorems: valid_iff_reencode (zero syndromes in every interleaved block <=> re-encoding the data part reproduces the error part, i.e. the oracle is the property's own wording), valid_distance (two valid words differing in <= k codewords per block are equal: minimum distance k+1 of every block code, lengths <= 255), valid_fixed (a valid word passes the decoder unchanged)."
+PROPS["C09"]["level_text"] = "Exploration with specification oracle (independent GF(256) syndromes) on words beyond the radius; the oracle's equivalence with the property's wording and the code's minimum distance are theorems."
+PROPS["C09"]["unproved"] = ["decode_sound: RS.decode s r = ok c' -> Valid c' (needs correctness of the Levinson-Durbin recursion and of the Bjorck-Pereyra solver)"]
+PROPS["C03"]["lean"] = ["DM.Props.C03"]
+PROPS["C03"]["explanation"] += " Theorems: correction_unique (a valid word within floor(k/2) per block of the received word is the only such word, so an Ok answer that is valid and local is the original vector), decode_restores (the same, stated for the decoder model)."
+PROPS["C03"]["level_text"] = "Exploration / fault enumeration of error patterns with model correspondence; uniqueness of the correction is a theorem, completeness of Levinson-Durbin is not proved."
+PROPS["C03"]["unproved"] = ["decode_complete: <= floor(k/2) errors per block -> RS.decode answers ok (completeness of the Levinson-Durbin locator search incl. its singular case)", "decode_sound / locality (see C09)"]
